@@ -281,19 +281,54 @@ int main(void)
 		sched_end(&st);
 		if (have_hook) lzma_verif_mt_event = NULL;
 
-		// ---- single-threaded oracle on the same bytes (no scheduler involved: it creates no threads)
+		// ---- single-threaded oracle on the same bytes (no scheduler involved: it creates no threads).
+		// The single-threaded decoder's output in front of an error can itself depend on the buffer slicing (that is
+		// C06's subject, not C07's): for rejected input the reference is therefore the SET of single-threaded results
+		// under three slicings (stin/stout [default everything at once]; 1-byte output slices; this case's own slicing),
+		// and the threaded result must equal one of them. For accepted input there is exactly one reference.
 		result str;
+		int st_var = -1, st_variants = 0, st_dep = 0, same = 0, prefix = 0;
+		size_t v0_len = 0;
+		lzma_ret v0_ret = LZMA_OK;
 		memset(&str, 0, sizeof str);
-		lzma_stream s2 = LZMA_STREAM_INIT;
-		ir = lzma_stream_decoder(&s2, mt.memlimit_stop ? mt.memlimit_stop : 1, mt.flags & ~(uint32_t)LZMA_FAIL_FAST);
-		if (ir != LZMA_OK)
-			str.ret = ir;
-		else
-			app_loop(&s2, data, len, stins, stouts, slice_seed + 1, fin, -1, maxcalls, 0, mlraise, &str);
-		lzma_end(&s2);
+		for (int var = 0; var < 3; ++var) {
+			result cur;
+			memset(&cur, 0, sizeof cur);
+			slicing vi = var == 0 ? stins : var == 1 ? parse_slicing("a") : ins;
+			slicing vo = var == 0 ? stouts : var == 1 ? parse_slicing("f:1") : outs;
+			lzma_stream s2 = LZMA_STREAM_INIT;
+			ir = lzma_stream_decoder(&s2, mt.memlimit_stop ? mt.memlimit_stop : 1, mt.flags & ~(uint32_t)LZMA_FAIL_FAST);
+			if (ir != LZMA_OK)
+				cur.ret = ir;
+			else
+				app_loop(&s2, data, len, vi, vo, slice_seed + (uint64_t)var, fin, -1, maxcalls, 0, mlraise, &cur);
+			lzma_end(&s2);
+			++st_variants;
+			const int eq = mtr.out.n == cur.out.n && (mtr.out.n == 0 || memcmp(mtr.out.p, cur.out.p, mtr.out.n) == 0);
+			const int pre = mtr.out.n <= cur.out.n && (mtr.out.n == 0 || memcmp(mtr.out.p, cur.out.p, mtr.out.n) == 0);
+			if (pre) prefix = 1;
+			if (var == 0) {
+				str = cur;
+				v0_len = cur.out.n;
+				v0_ret = cur.ret;
+				same = eq;
+				if (eq && cur.ret == mtr.ret) st_var = 0;
+			} else {
+				if (cur.out.n != v0_len || cur.ret != v0_ret) st_dep = 1;
+				if (st_var < 0 && eq && cur.ret == mtr.ret) {
+					free(str.out.p); free(str.info.p);
+					str = cur;
+					same = 1;
+					st_var = var;
+				} else {
+					free(cur.out.p); free(cur.info.p);
+				}
+			}
+			// accepted input has exactly one reference; a rejected one is settled as soon as a variant matches
+			if (v0_ret == LZMA_STREAM_END || st_var >= 0 || mtr.ended_early)
+				break;
+		}
 
-		const int same = mtr.out.n == str.out.n && (mtr.out.n == 0 || memcmp(mtr.out.p, str.out.p, mtr.out.n) == 0);
-		const int prefix = mtr.out.n <= str.out.n && (mtr.out.n == 0 || memcmp(mtr.out.p, str.out.p, mtr.out.n) == 0);
 		printf("mt_ret=%d mt_len=%zu mt_hash=%016" PRIx64 " mt_info=", (int)mtr.ret, mtr.out.n, fnv(mtr.out.p, mtr.out.n));
 		print_vec(&mtr.info);
 		printf(" mt_in=%" PRIu64 " calls=%" PRIu64 " st_ret=%d st_len=%zu st_hash=%016" PRIx64 " st_info=", mtr.total_in, mtr.calls,
@@ -301,9 +336,9 @@ int main(void)
 		print_vec(&str.info);
 		printf(" st_in=%" PRIu64 " same=%d prefix=%d ended=%d steps=%" PRIu64 " switches=%" PRIu64 " thr=%u maxlive=%u to=%" PRIu64
 			" spur=%" PRIu64 " waits=%" PRIu64 " cont=%" PRIu64 " shash=%016" PRIx64 " mem=%" PRIu64 " bufloop=%" PRIu64
-			" progbad=%d hook=%d ev=",
+			" progbad=%d st_var=%d st_variants=%d st_dep=%d hook=%d ev=",
 			str.total_in, same, prefix, mtr.ended_early, st.steps, st.switches, st.threads, st.max_live, st.timeouts, st.spurious,
-			st.waits, st.contended, st.trace_hash, mtr.memusage, mtr.bufloop, mtr.progress_bad, have_hook);
+			st.waits, st.contended, st.trace_hash, mtr.memusage, mtr.bufloop, mtr.progress_bad, st_var, st_variants, st_dep, have_hook);
 		if (have_hook) print_vec(&evbuf); else putchar('-');
 		putchar('\n');
 		fflush(stdout);
